@@ -25,7 +25,7 @@ pub static PROP: PropDef = PropDef {
            and raw poll_send, with stream / connection receive windows and send window from tiny to large so that writes are taken in pieces; a second send_data before poll_ready completed must be refused and contribute no byte; a raw Quinn peer reads to the end: \
            bytes == concatenation of what was handed over, nothing twice, nothing missing, in order. (recv) a raw Quinn peer writes 0..6 pieces (0..100 KB) on the nth bidi/uni stream it opened, as client or server, and ends with FIN or RESET(code); the adapter's poll_data, optionally polled once with a no-op waker before every awaited read (a read in flight), must hand out exactly those bytes in order and then the end / StreamTerminated{code}, recv_id = RFC 9000 2.1 id at every step. \
            (ids) send_id / recv_id queried in every state {fresh, read pending, data read, FIN seen, reset seen, after stop_sending, write pending, finished} on the first or a later stream, client- or server-initiated: always the QUIC stream id (also on the earlier streams and after split), never a panic. \
-           (errors) peer close(code) => ApplicationClose{same code}; idle timeout => Timeout; peer reset(code) => StreamTerminated{same code} on read; peer stop(code) => StreamTerminated{same code} on write. \
+           (errors; after the first report the call is repeated three times: no panic, no different code, same id) peer close(code) => ApplicationClose{same code}; idle timeout => Timeout; peer reset(code) => StreamTerminated{same code} on read; peer stop(code) => StreamTerminated{same code} on write. \
            non-trivial = a write whose payload exceeds the stream receive window (it cannot have been taken whole), or an id query in a non-fresh state, or an injected error; distinct by case parameters",
     assumptions: &[
         "the schedule is whatever Quinn, tokio and the kernel produce: it is sampled, not controlled; partial writes are provoked through Quinn's flow-control windows",
@@ -755,6 +755,32 @@ pub enum ErrRow {
 
 const ROWS: [ErrRow; 6] = [ErrRow::CloseOnAccept, ErrRow::CloseOnRead, ErrRow::CloseOnWrite, ErrRow::Timeout, ErrRow::ResetOnRead, ErrRow::StopOnWrite];
 
+/// The condition has been reported once; the trait allows asking again (select loops, h3's own later calls do): that must
+/// not panic, must not report a different code, and the identifier stays what it was. What exactly a later call returns
+/// (the same error, or the end of the stream after a reset) is not stated and not judged.
+fn asked_again(bi: &mut h3_quinn::BidiStream<Bytes>, code: u64, conn_level: bool) -> Result<(), String> {
+    let waker = futures_util::task::noop_waker();
+    for k in 0..3 {
+        let r = crate::runner::catch(|| {
+            let mut cx = std::task::Context::from_waker(&waker);
+            let id = bi.recv_id().into_inner();
+            let p = bi.poll_data(&mut cx);
+            if k == 1 {
+                bi.stop_sending(0x10c);
+            }
+            (id, p)
+        });
+        match r {
+            Err(p) => return Err(format!("asking again after the error was reported panicked: {p}")),
+            Ok((id, _)) if id != 0 => return Err(format!("recv_id changed to {id} after the error")),
+            Ok((_, Poll::Ready(Err(StreamErrorIncoming::StreamTerminated { error_code })))) if error_code != code && !conn_level => return Err(format!("a later poll_data reports StreamTerminated {{ {error_code:#x} }}, the peer's code is {code:#x}")),
+            Ok((_, Poll::Ready(Err(StreamErrorIncoming::ConnectionErrorIncoming { connection_error: ConnectionErrorIncoming::ApplicationClose { error_code } })))) if error_code != code && conn_level => return Err(format!("a later poll_data reports ApplicationClose {{ {error_code:#x} }}, the peer's code is {code:#x}")),
+            Ok(_) => {}
+        }
+    }
+    Ok(())
+}
+
 async fn err_case(fx: &Fixture, row: ErrRow, code: u64) -> Result<Result<(), String>, Failure> {
     let w = Windows { stream_rx: 1 << 16, conn_rx: 1 << 20, send: 1 << 20 };
     let idle = if row == ErrRow::Timeout { Some(150) } else { None };
@@ -766,7 +792,20 @@ async fn err_case(fx: &Fixture, row: ErrRow, code: u64) -> Result<Result<(), Str
         ErrRow::CloseOnAccept => {
             sc.close(qcode, b"bye");
             match std::future::poll_fn(|cx| <h3_quinn::Connection as quic::Connection<Bytes>>::poll_accept_bidi(&mut conn, cx)).await {
-                Err(ConnectionErrorIncoming::ApplicationClose { error_code }) if error_code == code => Ok(()),
+                Err(ConnectionErrorIncoming::ApplicationClose { error_code }) if error_code == code => {
+                    // the driver keeps asking: same answer, no panic
+                    let waker = futures_util::task::noop_waker();
+                    let again = crate::runner::catch(|| {
+                        let mut cx = std::task::Context::from_waker(&waker);
+                        (<h3_quinn::Connection as quic::Connection<Bytes>>::poll_accept_bidi(&mut conn, &mut cx).map(|r| r.map(|_| ())), <h3_quinn::Connection as quic::Connection<Bytes>>::poll_accept_recv(&mut conn, &mut cx).map(|r| r.map(|_| ())))
+                    });
+                    match again {
+                        Err(p) => Err(format!("accepting again after the close was reported panicked: {p}")),
+                        Ok((Poll::Ready(Err(ConnectionErrorIncoming::ApplicationClose { error_code: a })), _)) if a != code => Err(format!("a later poll_accept_bidi reports ApplicationClose {{ {a:#x} }}, the peer's code is {code:#x}")),
+                        Ok((_, Poll::Ready(Err(ConnectionErrorIncoming::ApplicationClose { error_code: a })))) if a != code => Err(format!("a later poll_accept_recv reports ApplicationClose {{ {a:#x} }}, the peer's code is {code:#x}")),
+                        Ok(_) => Ok(()),
+                    }
+                }
                 Err(e) => Err(format!("peer closed with {code:#x}; poll_accept_bidi gave {}", conn_err(&e))),
                 Ok(_) => Err("a stream was accepted".into()),
             }
@@ -788,7 +827,7 @@ async fn err_case(fx: &Fixture, row: ErrRow, code: u64) -> Result<Result<(), Str
                 ErrRow::CloseOnRead => {
                     sc.close(qcode, b"bye");
                     match std::future::poll_fn(|cx| bi.poll_data(cx)).await {
-                        Err(StreamErrorIncoming::ConnectionErrorIncoming { connection_error: ConnectionErrorIncoming::ApplicationClose { error_code } }) if error_code == code => Ok(()),
+                        Err(StreamErrorIncoming::ConnectionErrorIncoming { connection_error: ConnectionErrorIncoming::ApplicationClose { error_code } }) if error_code == code => asked_again(&mut bi, code, true),
                         other => Err(format!("peer closed with {code:#x}; poll_data gave {other:?}")),
                     }
                 }
@@ -812,7 +851,7 @@ async fn err_case(fx: &Fixture, row: ErrRow, code: u64) -> Result<Result<(), Str
                         match std::future::poll_fn(|cx| bi.poll_data(cx)).await {
                             Ok(Some(_)) => continue,
                             Err(StreamErrorIncoming::StreamTerminated { error_code }) if error_code == code => {
-                                out = Ok(());
+                                out = asked_again(&mut bi, code, false);
                                 break;
                             }
                             other => {
